@@ -316,7 +316,28 @@ def r4_quote_target(ctx):
         quote.check(ctx, "R4", F, cfg)
 
 
-RULES = [("R1", r1_sinks), ("R2", r2_xmlname), ("R3", r3_pairing), ("R4", r4_quote_target)]
+def r5_no_partial_write(ctx):
+    """Output reaches an io::Write / AsyncWrite sink only through write_all: a bare write() may accept fewer bytes than
+    offered and the rest of a tag would silently be lost.  Expected count of write() calls: zero (positive control:
+    write_all is found)."""
+    import re
+    for cfg, F in ctx.facts.items():
+        bad = []
+        good = 0
+        for b in F.bodies:
+            if is_derive(b) or "::tests" in b.path:
+                continue
+            for _, t in b.calls():
+                d = callee_of(t)[0] or ""
+                if re.search(r"(io::Write|AsyncWriteExt)::write_all$", d):
+                    good += 1
+                elif re.search(r"(io::Write|AsyncWriteExt|AsyncWrite)::(write|write_vectored|poll_write)$", d):
+                    bad.append((b, t, d))
+        for b, t, d in bad:
+            ctx.ob("R5", "partial-write:%s" % sym.short(strip_generics(b.path)), False, "%s may write only part of the buffer; its count must not be ignored: use write_all" % d.split("::")[-1], loc=b.loc(t["s"]), config=cfg)
+        ctx.ob("R5", "no-partial-write", not bad and good >= 3, "every sink write in the crate is write_all (%d call sites), none is a bare write()" % good, config=cfg)
+
+RULES = [("R1", r1_sinks), ("R2", r2_xmlname), ("R3", r3_pairing), ("R4", r4_quote_target), ("R5", r5_no_partial_write)]
 
 
 def THOROUGH_EXTRA(ctx):
